@@ -28,7 +28,8 @@ def checkGate (c : Json) (impl : Json) : Option String := Id.run do
   let cap : Nat := if n > 0 then n.toNat else 0
   let script := jarr c "script"
   let obs := jarr impl "obs"
-  if obs.length != script.length then return some s!"{obs.length} observations for {script.length} operations"
+  let aborted := jbool impl "aborted"
+  if obs.length != script.length && !aborted then return some s!"{obs.length} observations for {script.length} operations"
   let mut sim : GSim := { started := [], released := [], cancelledCtx := [], everInside := [], prevInside := [] }
   let mut step := 0
   for (op, ob) in script.zip obs do
@@ -61,6 +62,9 @@ def checkGate (c : Json) (impl : Json) : Option String := Id.run do
     if cap > 0 && inside.length < cap && !liveWaiters.isEmpty then
       return some s!"step {step}: {inside.length} inside, limit {cap}, but renders {liveWaiters.map (·.1)} are kept waiting"
     sim := { sim with prevInside := inside, everInside := sim.everInside ++ inside }
+  -- the harness stopped because the occupancy it waited for did not come: every observation so far was allowed by the model,
+  -- so nothing is claimed about the rest of this history
+  if aborted then return none
   -- outcomes
   let final := jobj impl "final"
   if !(jbool impl "drained") then return some "renders did not finish after everything was released / cancelled"
